@@ -14,12 +14,15 @@ Inductive place_kind : Type := Mut | Immut | Temp.
 
 Section Spec.
 Variable pk : path -> option bool.
+Variable deep : path -> list bool.   (* further pointer levels, auto-dereferenced by `.f` / `[i]` *)
 
 (* the access path of p already went through an immutable pointer *)
 Fixpoint via_immut (e : path) : bool :=
   match e with
-  | PDeref p | PField p _ | PIndex p =>
+  | PDeref p =>
       (match pk p with Some false => true | _ => false end) || via_immut p
+  | PField p _ | PIndex p =>
+      (match pk p with Some false => true | _ => false end) || deep_immut pk deep p || via_immut p
   | PParen p | PUnwrap p | PBlock p => via_immut p
   | _ => false
   end.
@@ -35,14 +38,22 @@ Definition through (p : path) (otherwise : place_kind) : place_kind :=
   | None => otherwise
   end.
 
+(* `p.f` / `p[i]` auto-dereference every pointer level of p: one immutable level suffices *)
+Definition through_auto (p : path) (otherwise : place_kind) : place_kind :=
+  match pk p with
+  | Some true => if deep_immut pk deep p then Immut else if via_immut p then Temp else Mut
+  | Some false => Immut
+  | None => otherwise
+  end.
+
 Fixpoint place (e : path) : place_kind :=
   match e with
   | PLocal _ mutable _ => if mutable then Mut else Immut
   | PParam _ => Immut
   | PGlobal _ => Immut
   | PDeref p => through p Temp                (* deref of a non-pointer is a type error *)
-  | PField p _ => through p (place p)
-  | PIndex p => through p (place p)
+  | PField p _ => through_auto p (place p)
+  | PIndex p => through_auto p (place p)
   | PParen p => place p
   | PUnwrap p => place p
   | PBlock p => place p
@@ -73,6 +84,8 @@ Fixpoint typed (e : path) : bool :=
 (* ---- the class on which get_mutability is NOT type-directed ------------------------- *)
 (* [suspect e d] = true when, walking like the code does with deref flag d, one of the
    arms is reached whose answer is not determined by the pointer type of e:
+   - `p.f` / `p[i]` auto-dereferencing a pointer to an IMMUTABLE pointer (only the outermost level
+     is looked at)
    - a second dereference, an index or an #unwrap under deref: the flag is handed to
      the container / outer pointer, whose pointer type is unrelated to the one of the
      element / inner pointer that is actually written through
@@ -84,7 +97,8 @@ Fixpoint suspect (e : path) (deref : bool) {struct e} : bool :=
   match e with
   | PDeref p => if deref then true else suspect p true
   | PIndex p =>
-      if deref then true else suspect p (match pk p with Some _ => true | None => false end)
+      if deref then true
+      else deep_immut pk deep p || suspect p (match pk p with Some _ => true | None => false end)
   | PUnwrap p => if deref then true else suspect p false
   | PBlock p | PParen p =>
       if deref then negb (same_pk (pk e) (pk p)) || suspect p true else suspect p false
@@ -97,11 +111,22 @@ Fixpoint suspect (e : path) (deref : bool) {struct e} : bool :=
       else false
   | PField p _ =>
       if deref then (match pk e with None => true | Some _ => false end)
-      else suspect p (match pk p with Some _ => true | None => false end)
+      else deep_immut pk deep p || suspect p (match pk p with Some _ => true | None => false end)
   | PCall _ | PLit => if deref then negb (same_pk (pk e) (Some true)) else false
   | PRef m _ => if deref then negb (same_pk (pk e) (Some m)) else false
   | PGlobal _ | POther _ => if deref then same_pk (pk e) (Some true) else false
   | PCast _ | PParam _ => false
+  end.
+
+(* [multilevel e]: on the way the code walks without the deref flag, a `.f` / `[i]` whose source is
+   a `^mut` pointer to (a pointer to ...) an IMMUTABLE pointer: the class on which checking only the
+   outermost level (/repo 1af504c) is not enough. *)
+Fixpoint multilevel (e : path) : bool :=
+  match e with
+  | PField p _ | PIndex p =>
+      deep_immut pk deep p || (match pk p with None => multilevel p | Some _ => false end)
+  | PParen p | PUnwrap p | PBlock p => multilevel p
+  | _ => false
   end.
 
 End Spec.
